@@ -76,6 +76,51 @@ theorem Src.read_spec (s : Src α) (amount : Nat) :
       have : (List.take (min amount (max cap 1)) (x :: xs)).length = 0 := by rw [h]; rfl
       simp [List.length_take] at this; omega
 
+/-- `_read_from_fileobj`: whatever the short-read pattern, it returns exactly the first `amount` bytes
+of what is left (all of it if there is less) and leaves the rest -/
+theorem Src.readFully_spec (fuel : Nat) (s : Src α) (amount : Nat) (hf : amount ≤ fuel) :
+    (s.readFully fuel amount).1 = s.data.take amount ∧ (s.readFully fuel amount).2.data = s.data.drop amount := by
+  induction fuel generalizing s amount with
+  | zero =>
+    have : amount = 0 := by omega
+    subst this
+    simp [Src.readFully]
+  | succ fuel ih =>
+    unfold Src.readFully
+    by_cases ha : amount = 0
+    · subst ha; simp
+    · rw [if_neg ha]
+      obtain ⟨r1, r2, r3⟩ := Src.read_spec s amount
+      by_cases hz : (s.read amount).1.length = 0
+      · rw [if_pos hz]
+        have hnil : (s.read amount).1 = [] := List.eq_nil_of_length_eq_zero hz
+        have hd : s.data = [] := by
+          by_cases h : s.data = []
+          · exact h
+          · exact absurd hnil (r2 (by omega) h)
+        rw [hnil] at r1
+        simp only [List.nil_append] at r1
+        simp [hd, r1]
+      · rw [if_neg hz]
+        have hk : 0 < (s.read amount).1.length := by omega
+        obtain ⟨i1, i2⟩ := ih (s.read amount).2 (amount - (s.read amount).1.length) (by omega)
+        simp only [i1, i2]
+        have hpre : (s.read amount).1 = s.data.take (s.read amount).1.length := by
+          have := congrArg (List.take (s.read amount).1.length) r1
+          simpa using this
+        have hrest : (s.read amount).2.data = s.data.drop (s.read amount).1.length := by
+          have := congrArg (List.drop (s.read amount).1.length) r1
+          simpa using this
+        generalize hk' : (s.read amount).1.length = k at *
+        constructor
+        · rw [hpre, hrest]
+          have h := List.take_add (l := s.data) (i := k) (j := amount - k)
+          rw [show k + (amount - k) = amount by omega] at h
+          exact h.symm
+        · rw [hrest, List.drop_drop]
+          congr 1
+          omega
+
 /-- one `_read`: what it returns plus what is left is what was there; it returns something
 whenever something is left -/
 theorem readChunk_spec (m : NS α) (amount : Nat) (ha : 0 < amount) :
@@ -86,9 +131,13 @@ theorem readChunk_spec (m : NS α) (amount : Nat) (ha : 0 < amount) :
   by_cases h0 : m.initial.length = 0
   · rw [if_pos h0]
     have hnil : m.initial = [] := List.eq_nil_of_length_eq_zero h0
-    obtain ⟨r1, r2, _⟩ := Src.read_spec m.src amount
-    simp only [hnil, List.nil_append]
-    exact ⟨r1, fun h => r2 ha h⟩
+    obtain ⟨f1, f2⟩ := Src.readFully_spec amount m.src amount (Nat.le_refl _)
+    simp only [hnil, List.nil_append, f1, f2]
+    refine ⟨List.take_append_drop _ _, fun h hx => ?_⟩
+    have : (List.take amount m.src.data).length = 0 := by rw [hx]; rfl
+    rw [List.length_take] at this
+    have : m.src.data.length = 0 := by omega
+    exact h (List.eq_nil_of_length_eq_zero this)
   · rw [if_neg h0]
     by_cases h1 : amount ≤ m.initial.length
     · rw [if_pos h1]
@@ -98,11 +147,11 @@ theorem readChunk_spec (m : NS α) (amount : Nat) (ha : 0 < amount) :
       have : (List.take amount m.initial).length = 0 := by rw [h]; rfl
       rw [List.length_take] at this; omega
     · rw [if_neg h1]
-      obtain ⟨r1, _, _⟩ := Src.read_spec m.src (amount - m.initial.length)
-      simp only [List.nil_append]
-      refine ⟨by rw [List.append_assoc, r1], ?_⟩
+      obtain ⟨f1, f2⟩ := Src.readFully_spec (amount - m.initial.length) m.src (amount - m.initial.length) (Nat.le_refl _)
+      simp only [List.nil_append, f1, f2]
+      refine ⟨by rw [List.append_assoc, List.take_append_drop], ?_⟩
       intro _ h
-      have : (m.initial ++ (m.src.read (amount - m.initial.length)).1).length = 0 := by rw [h]; rfl
+      have : (m.initial ++ List.take (amount - m.initial.length) m.src.data).length = 0 := by rw [h]; rfl
       rw [List.length_append] at this; omega
 
 /-- **Non-seekable source, any short-read pattern**: the part bodies, in the order they are
@@ -143,7 +192,9 @@ or the concatenation of the parts equals the stream's content. -/
 theorem nonseekable_exact (s : Src α) (threshold chunk : Nat) (hc : 0 < chunk) :
     (NS.choose s threshold).2.putBody = s.data ∧
     (NS.parts (s.data.length + 1) (NS.choose s threshold).2 chunk).flatten = s.data := by
-  obtain ⟨r1, _, _⟩ := Src.read_spec s threshold
+  obtain ⟨f1, f2⟩ := Src.readFully_spec threshold s threshold (Nat.le_refl _)
+  have r1 : (s.readFully threshold threshold).1 ++ (s.readFully threshold threshold).2.data = s.data := by
+    rw [f1, f2]; exact List.take_append_drop _ _
   have hlen := congrArg List.length r1
   simp only [List.length_append] at hlen
   refine ⟨by simp [NS.choose, NS.putBody, r1], ?_⟩
@@ -151,6 +202,37 @@ theorem nonseekable_exact (s : Src α) (threshold chunk : Nat) (hc : 0 < chunk) 
     (by simp only [NS.choose]; omega)).1
   rw [this]
   simp [NS.choose, r1]
+
+/-- **A stream sent as one PutObject is shorter than the threshold** (the D16 repair): whatever the
+short-read pattern, the single-request path is taken only when the whole stream has fewer than
+`multipart_threshold` bytes — so its in-memory body is bounded by the threshold (C11). -/
+theorem single_put_below_threshold (s : Src α) (threshold : Nat) (h : (NS.choose s threshold).1 = false) :
+    s.data.length < threshold ∧ (NS.choose s threshold).2.putBody.length < threshold := by
+  obtain ⟨f1, f2⟩ := Src.readFully_spec threshold s threshold (Nat.le_refl _)
+  simp only [NS.choose, f1, List.length_take] at h
+  have hl : s.data.length < threshold := by
+    by_cases hle : threshold ≤ min threshold s.data.length
+    · have := Nat.ble_eq_true_of_le hle; rw [h] at this; cases this
+    · omega
+  refine ⟨hl, ?_⟩
+  simp only [NS.choose, NS.putBody, f1, f2, List.take_append_drop]
+  exact hl
+
+/-- and the parts of a multipart stream upload are full-sized except the last: every part body has
+exactly `chunk` bytes unless it is the final one -/
+theorem nonseekable_part_full (m : NS α) (chunk : Nat) (hc : 0 < chunk)
+    (hrest : chunk ≤ m.initial.length + m.src.data.length) : (m.readChunk chunk).1.length = chunk := by
+  unfold NS.readChunk
+  by_cases h0 : m.initial.length = 0
+  · rw [if_pos h0]
+    obtain ⟨f1, _⟩ := Src.readFully_spec chunk m.src chunk (Nat.le_refl _)
+    simp only [f1, List.length_take]; omega
+  · rw [if_neg h0]
+    by_cases h1 : chunk ≤ m.initial.length
+    · rw [if_pos h1]; simp only [List.length_take]; omega
+    · rw [if_neg h1]
+      obtain ⟨f1, _⟩ := Src.readFully_spec (chunk - m.initial.length) m.src (chunk - m.initial.length) (Nat.le_refl _)
+      simp only [f1, List.length_append, List.length_take]; omega
 
 /-- **Re-sending a body**: after any history of reads/seeks on a request body, a rewind followed
 by reading it out returns exactly the body's window again (from C09's model of ReadFileChunk). -/
@@ -173,6 +255,7 @@ theorem copy_ranges_concat (size c : Nat) (hc : 0 < c) (hs : 0 < size) :
 /-! ### non-vacuity -/
 example : slices [1,2,3,4,5,6,7] 3 (S3V.Plan.ceilDiv 7 3) = [[1,2,3],[4,5,6],[7]] := by decide
 example : NS.parts 9 (NS.choose ({ data := [1,2,3,4,5,6,7,8], script := [3, 1, 2] } : Src Nat) 3).2 4
-    = [[1,2,3,4], [5,6], [7,8]] := by decide
+    = [[1,2,3,4], [5,6,7,8]] := by decide
+example : (NS.choose ({ data := [1,2,3,4,5], script := [2, 1, 1] } : Src Nat) 4).1 = true := by decide
 
 end S3V.C01
